@@ -163,6 +163,11 @@ def replay(cfg, events):
                 out = str(l)
                 l2 = Literal(out, datatype=dt)
                 v0 = l0.value
+                try:
+                    ln = l0.normalize()          # the method, next to the normalising constructor
+                    e["out_m"], e["ill_m"] = chars(str(ln)), bool(ln.ill_typed)
+                except Exception as ex_:     # noqa: BLE001
+                    e["out_m"], e["ill_m"] = chars("<raise:%s>" % type(ex_).__name__), True
                 e.update(lex=chars(lex), text=lex, ill=bool(l.ill_typed), hasval=v0 is not None, canon=chars(canon_py(v0, e["dt"])) if v0 is not None else [],
                          fields=fields_py(v0), dur=dur_py(v0), out=chars(out), out2=chars(str(l2)), ill_out=bool(l2.ill_typed), same=same_value(v0, l2.value),
                          value=repr(v0)[:80])
